@@ -150,6 +150,8 @@ func c15ValueOps(quick bool) [][]byte {
 		vd(protocol.NewLockCommandDataIncrData(1)),
 		vd(protocol.NewLockCommandDataIncrData(-2)),
 		vd(protocol.NewLockCommandDataIncrData(1 << 62)),
+		vd(protocol.NewLockCommandDataIncrData(0)),
+		vd(protocol.NewLockCommandDataPipelineData([]*protocol.LockCommandData{protocol.NewLockCommandDataIncrData(0), protocol.NewLockCommandDataIncrData(5)})),
 		vd(protocol.NewLockCommandDataAppendString("c")),
 		vd(protocol.NewLockCommandDataShiftData(0)),
 		vd(protocol.NewLockCommandDataShiftData(1)),
